@@ -151,16 +151,14 @@ def override(m):
         w = m["pad_width"]
         if len(w) == 2 * d and any(m["shape"][i] + w[i] + w[d + i] < 0 for i in range(d)):
             return False
-    if op in ("expand", "expand_l", "expand_ll"):
-        # no NumPy counterpart; the C04 model asserts the axis range and the spacing length, but Python would wrap a
-        # negative spacing silently: negative spacings are not generated
-        return None
-    if op == "la_tensordot_n" and m["n"] < 0:
-        # numpy.tensordot treats a negative integer like 0 (empty range); not generated
-        return None
-    if op in ("take", "take_none"):
-        # numpy.take raises for an index outside [-n, n) (mode='raise'), which expected() reproduces
-        return None
+    # Documented generator restrictions (no override needed, the cases are simply not generated):
+    #  * expand: no NumPy counterpart; the C04 model asserts the axis range and the spacing length, but Python would wrap
+    #    a negative spacing silently and the model lets a repeated axis overwrite -> neither is generated;
+    #  * tensordot(a, b, n) with n < 0: numpy.tensordot treats it like 0 (empty range) -> not generated;
+    #  * numpy.tri accepts negative N / M (empty result) -> not generated;
+    #  * roll: NumPy accepts a repeated axis (the shifts add up) -> labelled ok;
+    #  * compress: false entries beyond the axis are fine in NumPy, only a true one raises -> only that is generated;
+    #  * take: numpy.take raises for an index outside [-n, n) (mode='raise'), which C04.expected() reproduces.
     return None
 
 
@@ -416,13 +414,13 @@ def gen_c04_invalid(rng, tier):
                 cands.append(s2)
             cands.append(list(s))
             for s2 in _some(rng, cands, 2 * W):
-                m = dict(op=op, shape=s, shape2=s2)
                 try:
+                    # 1-d operands of different length are fine for hstack, not for the others: NumPy decides
                     getattr(np, op)((np.zeros(s, dtype=np.int8), np.zeros(s2, dtype=np.int8)))
                     why = "ok"
                 except ValueError:
                     why = "operand_shape_mismatch"
-                add(op, "%s %s" % (fs, fmt_vec(s2)), why, **{k: v for k, v in m.items() if k != "op"})
+                add(op, "%s %s" % (fs, fmt_vec(s2)), why, shape=s, shape2=s2)
         # ---- split: sections that do not divide the extent, 0 / negative sections, axis out of range
         cands = []
         for ax in axs:
@@ -578,14 +576,12 @@ def gen_c07_invalid(rng, tier):
                         build(o, types, form, p)
                 else:
                     trs = []
-                    n_bad = 0
                     want = 30 if quick else 400
                     while len(trs) < want:
                         t = tuple(rng.choice(small) for _ in range(3))
                         if compatible(t) and rng.random() < 0.8:
                             continue
                         trs.append(t)
-                        n_bad += not compatible(t)
                     for t in trs:
                         build(o, types, form, t)
     return cases
@@ -603,7 +599,15 @@ def gen_c08_invalid(rng, tier):
     if not quick:
         shapes += [tuple(s) for s in all_shapes(4, 3, mindim=4)]
 
+    combo_cache = {}
+    cand_cache = {}
+
     def axis_cands(kind, d, multi):
+        if (kind, d, multi) not in cand_cache:
+            cand_cache[(kind, d, multi)] = axis_cands_(kind, d, multi)
+        return cand_cache[(kind, d, multi)]
+
+    def axis_cands_(kind, d, multi):
         """[(axis argument, reason)] over [-d-2, d+1] (lists of length 1..3 incl. duplicates)"""
         axs = _axes(d)
         out = []
@@ -628,12 +632,16 @@ def gen_c08_invalid(rng, tier):
             if o["axis"] == "N":
                 continue           # axis=None: no axis argument to get wrong
             exhaustive = o["name"] in ("red_add_i4_aI_dN_iN_kF", "red_add_i4_aL_dN_iN_kF", "red_add_i4_aL_dN_iN_kR")
-            combos = []
-            for s in shapes:
-                for ax, why in axis_cands(o["axis"], len(s), o.get("multi_axis", True)):
-                    kds = (True, False) if o["keep"] == "R" else ((True,) if o["keep"] == "T" else (False,))
-                    for kd in kds:
-                        combos.append((s, ax, kd, why))
+            ckey = (o["axis"], o["keep"], o.get("multi_axis", True))
+            if ckey not in combo_cache:
+                combos = []
+                for s in shapes:
+                    for ax, why in axis_cands(o["axis"], len(s), o.get("multi_axis", True)):
+                        kds = (True, False) if o["keep"] == "R" else ((True,) if o["keep"] == "T" else (False,))
+                        for kd in kds:
+                            combos.append((s, ax, kd, why))
+                combo_cache[ckey] = combos
+            combos = combo_cache[ckey]
             if exhaustive and quick:
                 combos = [c for c in combos if len(c[0]) <= 2 or max(c[0]) <= 2]
                 combos = _strat(rng, combos, lambda c: (c[0], c[3], c[2], len(c[1]) if isinstance(c[1], list) else 0), 2)
